@@ -83,16 +83,20 @@ inline void key_layer(const unsigned char* k, std::size_t kl, unsigned layer, st
 // link_idx >= 0: that entry is a next-layer link (len 9) whose child is attached later with attach_layer().
 // lo/hi (optional): every entry lies in [lo, hi) in the reference order (for children of an interior node).
 template<unsigned N>
-inline void build_border(bstate<N>& st, bool root, unsigned slotmap, int link_idx = -1, bool deleted_if_empty = true) {
+inline void build_border(bstate<N>& st, bool root, unsigned slotmap, int link_idx = -1, bool deleted_if_empty = true,
+                         unsigned symmask = 0xffffU) {
     auto* b = new border_node();
     st.node = b;
     st.n = N;
     std::uint64_t perm = N;
     for (unsigned i = 0; i < N; ++i) {
         entry& e = st.e[i];
-        e.slice = yk_nondet_u64() & key_mask();
-        e.len = ((int) i == link_idx) ? 9U : (unsigned) yk_nondet_u8();
-        e.vbyte = yk_nondet_u8();
+        // entries outside symmask are concrete fillers: the 1-byte keys 0x08, 0x18, ..., 0xE8 (ascending, well apart), so
+        // that big nodes stay tractable; the symbolic entries range freely between their neighbours
+        bool symb = ((symmask >> i) & 1U) != 0;
+        e.slice = symb ? (yk_nondet_u64() & key_mask()) : (std::uint64_t) (0x08U + 0x10U * i);
+        e.len = ((int) i == link_idx) ? 9U : (symb ? (unsigned) yk_nondet_u8() : 1U);
+        e.vbyte = symb ? yk_nondet_u8() : (unsigned char) (0x40 + i);
         e.slot = slot_of(slotmap, i);
         e.child = nullptr;
         yk_assume(valid_tuple(e.slice, e.len));
